@@ -188,6 +188,8 @@ def make_adapter(ctx, kind, tag, delays):
         return fm.adapters.AvgOverTime()
     if kind == "sum":
         return fm.adapters.SumOverTime(per_time=False)
+    if kind == "stack":
+        return fm.adapters.StackTime()
     if kind == "dfix":
         d = ctx.td("d_" + tag, lo_us=0)
         delays.append(d)
@@ -721,7 +723,7 @@ def run_family(prop, name, topo, max_updates, props=None, **extra):
     )
 
 
-PUSH_BASED_KINDS = ("linear", "next", "prev", "step", "avg", "sum")
+PUSH_BASED_KINDS = ("linear", "next", "prev", "step", "avg", "sum", "stack")
 
 
 def spec_delay_before_push(topo):
